@@ -43,7 +43,45 @@ class NpArr:
         return NpArr([f(x) for x in self.data])
 
     @staticmethod
+    def matmul(interp, a, b, node):
+        """a @ b for (2-D @ 1-D), (1-D @ 1-D) and (2-D @ 2-D) numeric arrays"""
+        ln = getattr(node, 'lineno', None)
+        if not (isinstance(a, NpArr) and isinstance(b, NpArr)):
+            raise Unsupported("matmul operands")
+
+        def dot(u, v):
+            if len(u) != len(v):
+                raise Raised('ValueError', ln, 'matmul: mismatch in core dimension', implicit=True)
+            acc = 0
+            for x, y in zip(u, v):
+                acc = interp.binop(ast.Add(), acc, interp.binop(ast.Mult(), x, y, node), node)
+            return acc
+        if a.ndim == 2 and b.ndim == 1:
+            return NpArr([dot(r, b.data) for r in a.data])
+        if a.ndim == 1 and b.ndim == 1:
+            return dot(a.data, b.data)
+        if a.ndim == 2 and b.ndim == 2:
+            cols = [[r[j] for r in b.data] for j in range(len(b.data[0]))]
+            return NpArr([[dot(r, c) for c in cols] for r in a.data])
+        raise Unsupported("matmul shapes")
+
+    @staticmethod
+    def compare(interp, op, a, b, node):
+        """elementwise comparison -> array of (symbolic) booleans"""
+        if isinstance(a, NpArr) and isinstance(b, NpArr):
+            if a.shape != b.shape:
+                raise Raised('ValueError', getattr(node, 'lineno', None), 'operands could not be broadcast together', implicit=True)
+            if a.ndim == 2:
+                return NpArr([[interp.compare(op, x, y, node) for x, y in zip(r1, r2)] for r1, r2 in zip(a.data, b.data)])
+            return NpArr([interp.compare(op, x, y, node) for x, y in zip(a.data, b.data)])
+        if isinstance(a, NpArr):
+            return a.map1(interp, lambda x: interp.compare(op, x, b, node))
+        return b.map1(interp, lambda x: interp.compare(op, a, x, node))
+
+    @staticmethod
     def binop(interp, op, a, b, node):
+        if isinstance(op, ast.MatMult):
+            return NpArr.matmul(interp, a, b, node)
         if isinstance(a, NpArr) and isinstance(b, NpArr):
             if a.shape != b.shape:
                 if a.ndim == 2 and b.ndim == 1 and a.shape[1] == b.shape[0]:
@@ -308,7 +346,64 @@ def np_isclose(interp, args, kwargs, node):
     return z3.simplify(absz(ra - rb) <= real(atol) + real(rtol) * absz(rb))
 
 
-NP_FUNCS = {'isclose': np_isclose, 'round': np_round, 'zeros': np_zeros, 'identity': np_identity, 'roll': np_roll, 'array': np_array, 'sum': np_sum,
+def _flat(v):
+    if isinstance(v, NpArr):
+        return [x for r in v.data for x in r] if v.ndim == 2 else list(v.data)
+    return [v]
+
+
+def np_any(interp, args, kwargs, node):
+    from .values import boolz
+    items = [boolz(x) if not isinstance(x, bool) else x for x in _flat(args[0])]
+    if all(isinstance(x, bool) for x in items):
+        return any(items)
+    return z3.simplify(z3.Or(*[x if not isinstance(x, bool) else z3.BoolVal(x) for x in items]))
+
+
+def np_all(interp, args, kwargs, node):
+    from .values import boolz
+    items = [boolz(x) if not isinstance(x, bool) else x for x in _flat(args[0])]
+    if all(isinstance(x, bool) for x in items):
+        return all(items)
+    return z3.simplify(z3.And(*[x if not isinstance(x, bool) else z3.BoolVal(x) for x in items]))
+
+
+def np_abs(interp, args, kwargs, node):
+    from .builtins_ import b_abs
+    v = args[0]
+    if isinstance(v, NpArr):
+        return v.map1(interp, lambda x: b_abs(interp, [x], {}, node))
+    return b_abs(interp, [v], {}, node)
+
+
+def np_clip(interp, args, kwargs, node):
+    """numpy.clip(a, lo, hi) elementwise (None = unbounded on that side)"""
+    a = args[0]
+    lo = args[1] if len(args) > 1 else kwargs.get('a_min', kwargs.get('min'))
+    hi = args[2] if len(args) > 2 else kwargs.get('a_max', kwargs.get('max'))
+
+    def one(x):
+        if is_conc_num(x) and (lo is None or is_conc_num(lo)) and (hi is None or is_conc_num(hi)):
+            y = x if lo is None else max(x, lo)
+            return y if hi is None else min(y, hi)
+        y = real(x)
+        if lo is not None:
+            y = z3.If(y < real(lo), real(lo), y)
+        if hi is not None:
+            y = z3.If(y > real(hi), real(hi), y)
+        return y
+    if isinstance(a, NpArr):
+        return a.map1(interp, one)
+    if not is_num(a):
+        raise Unsupported("numpy.clip operand")
+    return one(a)
+
+
+def np_dot(interp, args, kwargs, node):
+    return NpArr.matmul(interp, args[0], args[1], node)
+
+
+NP_FUNCS = {'clip': np_clip, 'any': np_any, 'all': np_all, 'abs': np_abs, 'absolute': np_abs, 'dot': np_dot, 'isclose': np_isclose, 'round': np_round, 'zeros': np_zeros, 'identity': np_identity, 'roll': np_roll, 'array': np_array, 'sum': np_sum,
             'shape': np_shape, 'size': np_size}
 
 
@@ -619,6 +714,31 @@ class VectorizedV:
     def __init__(self, f, cache, otypes):
         self.f, self.cache, self.otypes = f, cache, otypes
 
+    def _dtype(self, flat, node):
+        """numeric results: with otypes the dtype is given ('d' -> float); WITHOUT otypes numpy takes the dtype from the
+        Python type of the FIRST result — an int there makes an integer array and every later float is truncated."""
+        import math as _m
+        if self.otypes is not None or not flat:
+            return flat
+        first = flat[0]
+        if isinstance(first, (bool, int)):
+            out = []
+            for x in flat:
+                if isinstance(x, (bool, int)):
+                    out.append(int(x))
+                elif isinstance(x, (Fraction, float)):
+                    out.append(_m.trunc(x))
+                else:
+                    raise Unsupported("numpy.vectorize without otypes: integer dtype taken from the first result, "
+                                      "later symbolic values would be truncated")
+            return out
+        if isinstance(first, (Fraction, float)):
+            return flat
+        if any(not isinstance(x, (bool, int, Fraction, float)) for x in flat[:1]):
+            # the Python type (int or float) of a symbolic first result is not tracked: the dtype is unknown
+            raise Unsupported("numpy.vectorize without otypes: the dtype depends on the Python type of the first result")
+        return flat
+
     def sym_call(self, interp, args, kwargs, node):
         A = args[0]
         if isinstance(A, Obj):
@@ -636,14 +756,16 @@ class VectorizedV:
                 interp.call(self.f, [A.cells[0][0]], {}, node)     # the extra probing call
             out = [[interp.call(self.f, [c], {}, node) for c in r] for r in A.cells]
             if all(is_num(x) or isinstance(x, bool) for r in out for x in r):
-                return NpArr(out)
+                flat = self._dtype([x for r in out for x in r], node)
+                it = iter(flat)
+                return NpArr([[next(it) for _ in r] for r in out])
             return GridArr.concrete(out)
         if isinstance(A, GridFlat):
             if not self.cache and self.otypes is None and A.items:
                 interp.call(self.f, [A.items[0]], {}, node)
             out = [interp.call(self.f, [c], {}, node) for c in A.items]
             if all(is_num(x) or isinstance(x, bool) for x in out):
-                return NpArr(out)
+                return NpArr(self._dtype(out, node))
             return GridFlat(out)
         raise Unsupported(f"vectorize over {type(A).__name__}")
 
